@@ -86,12 +86,20 @@ GCompact(level, b, e) ==
                            \cup (IF snaps # {} /\ \E x, y \in surv : x.k = y.k /\ x # y THEN {"snapkeep"} ELSE {})
                            \cup (IF su.in1 # {} THEN {"merge"} ELSE {"push"})
      /\ nextf' = nextf + 1 /\ Rec([op |-> "compact", a |-> level, b |-> b, c |-> e, w |-> 0])
+\* metadata lost, ldb_repair, open: the log becomes a table, every table goes to level 0 (C19)
+GRepair(variant) ==
+  /\ AllowRepair /\ CanOp /\ snaps = {} /\ Files # {} /\ "repair" \notin tags
+  /\ LET memf == IF mem = {} THEN {} ELSE {[n |-> nextf, e |-> mem]} IN
+     /\ lv' = [l \in Levels |-> IF l = 0 THEN Files \cup memf ELSE {}] /\ disk' = disk \cup {f.n : f \in memf}
+  /\ mem' = {} /\ nextf' = nextf + 1 /\ tags' = tags \cup {"repair"}
+  /\ RecW([op |-> "repair", a |-> variant, b |-> 0, c |-> 0, w |-> 0], 6)
+  /\ UNCHANGED <<seq, imm, hasImm, snaps, hist, pins>>
 GSnap == /\ CanOp /\ snaps = {} /\ seq > 0 /\ snaps' = {seq} /\ RecW([op |-> "snap", a |-> 1, b |-> 0, c |-> 0, w |-> 0], 3)
          /\ UNCHANGED <<seq, mem, imm, hasImm, lv, nextf, hist, pins, disk, tags>>
 GRel == /\ CanOp /\ snaps # {} /\ snaps' = {} /\ Rec([op |-> "rel", a |-> 1, b |-> 0, c |-> 0, w |-> 0])
         /\ UNCHANGED <<seq, mem, imm, hasImm, lv, nextf, hist, pins, disk, tags>>
 GNext == \/ \E k \in Keys : GPut(k) \/ GDel(k)
-         \/ GFlush \/ GReopen \/ GSnap \/ GRel
+         \/ GFlush \/ GReopen \/ GSnap \/ GRel \/ (\E v \in 0..3 : GRepair(v))
          \* ranges are taken from the file boundaries of the level (and just past them), where the selection logic has its cases
          \/ \E level \in 0..(NL - 2) :
               /\ (level = 0 => Cardinality(lv[0]) >= 2)
